@@ -944,3 +944,81 @@ def check_C19(rep, tier):
         rep.mismatch({"kind": "from_meta_alters_field", "which": b.get("kind"), "field": b.get("field")}, {"case": b})
     rep.assumptions += ["C19 constrains accepted documents; a document the schema accepts but the parser rejects is recorded as drift",
                         "field universes are the top-level members of each format; nested optional members use fixed representative values"]
+
+
+# ----------------------------------------------------------------------------- C18
+def check_C18(rep, tier):
+    rep.cov["rule"] = ("TLC enumerates file-system graphs over the skeleton of Record.tla (files, nested and empty directories, up to two "
+                       "symbolic links, absolute and relative, to files / directories / each other / an ancestor), path argument lists "
+                       "(single, overlapping, duplicated, file, link) and strip-prefix lists (none, nested, colliding), and in_toto_run "
+                       "histories (create / modify / delete / create in sub-directory), proving Exact / ErrIffCollision / EveryFileOnce "
+                       "on the walk machine.  Each graph is materialised in a temporary directory (name classes plain / space / "
+                       "non-ASCII / leading dot, non-normalised argument spellings, sha256 / sha512 / both, files of 0..3000 bytes and "
+                       "1 MiB) and record_artifacts / in_toto_run must return exactly the specification's entries, each identified by an "
+                       "independently computed digest of the whole file.  Non-trivial = graph with a link, overlap or strip list.")
+    sh = Sharder("C18")
+    exp = {}
+
+    def on_scn(s):
+        i = sh.add({k: s[k] for k in ("m", "fs", "flav", "cmd", "args", "strips")})
+        exp[i] = (s["out"], sorted((e["key"], e["file"]) for e in s["entries"]), sorted(s["files"]),
+                  sorted((e["key"], e["file"]) for e in s["after"]), s["cmd"], s["amb"])
+        if s["fs"]["l1"] != "none" or s["fs"]["l2"] != "none" or len(s["args"]) > 1 or s["strips"]:
+            rep.nontrivial(i)
+        if i % 2503 == 17:
+            rep.sample({k: s[k] for k in ("fs", "flav", "cmd", "args", "strips", "out", "entries")})
+
+    st = run_tlc("MC_C18", f"MC_C18_{tier}.cfg", "c18", on_scn=on_scn)
+    require_clean(st, "MC_C18")
+    rep.add_tlc(st, "MC_C18")
+    rep.vacuity(["ARecordArg", "ARecordEnd"])
+    rep.cov["exhaustive"] = True
+    sh.run(per_shard_cwd=True)
+    n = 0
+    for r in sh.results():
+        n += 1
+        i = r["i"]
+        out, entries, files, after, cmd, amb = exp[i]
+        mk = lambda i=i, r=r: {"scn": sh.scenario(i), "spec": {"out": exp[i][0], "entries": exp[i][1], "after": exp[i][3]}, "actual": r}
+        o = r.get("out")
+        sc = None
+        if o == "panic":
+            rep.mismatch({"kind": "panic"}, mk)
+            continue
+        if out == "err":
+            if o != "err":
+                rep.mismatch({"kind": "collision_not_reported"}, mk)
+            continue
+        if o != "ok" and amb:
+            rep.cov["drift"] += 1
+            continue
+        if o != "ok":
+            sc = sh.scenario(i)
+            cls = "relative_symlink" if ("rel" in (sc["flav"]["l1"], sc["flav"]["l2"]) and (sc["fs"]["l1"] != "none" or sc["fs"]["l2"] != "none")) else \
+                  ("overlapping_arguments" if len(sc["args"]) > 1 else "other")
+            rep.mismatch({"kind": "spurious_error", "class": cls, "msg": (r.get("msg") or "")[:60]}, mk)
+            continue
+        got = sorted((e["key"], e["file"]) for e in r["entries"])
+        if not r.get("digests_ok"):
+            rep.mismatch({"kind": "digest_wrong_or_algorithm_missing"}, mk)
+        if got != entries:
+            extra = [e for e in got if e not in entries]
+            missing_files = [f for f in files if f not in {e[1] for e in got}]
+            if extra:
+                rep.mismatch({"kind": "recorded_something_else", "n": len(extra)}, mk)
+            elif missing_files:
+                rep.mismatch({"kind": "reachable_file_not_recorded", "files": missing_files}, mk)
+            else:
+                rep.mismatch({"kind": "entry_missing", "missing": [e for e in entries if e not in got][:3]}, mk)
+        if cmd != "norun":
+            gota = sorted((e["key"], e["file"]) for e in r.get("after", []))
+            if gota != after:
+                rep.mismatch({"kind": "products_do_not_reflect_post_state"}, mk)
+            if not (r.get("byproducts_ok") and r.get("name_ok")):
+                rep.mismatch({"kind": "byproducts_or_name_wrong"}, mk)
+    rep.cov["evaluations"] = n
+    rep.cov["traces_validated_against_impl"] = n
+    sh.cleanup()
+    rep.assumptions += ["walkdir and the OS resolve links; dangling links are outside C18's quantifier",
+                        "digests recomputed independently with ring over the whole file in one call",
+                        "files have pairwise distinct contents so that an entry's digest identifies the file"]
